@@ -142,6 +142,7 @@ class Layout(Suite):
                 cases.append({"bucket": "layout-badname", "op": "layout", "name": rng.choice(bad), "detached": False})
             else:
                 steps = [rng.choice(["commit", "branch", "tag", "reset", "commit"]) for _ in range(rng.randrange(1, 5))]
+                steps = [x for i, x in enumerate(steps) if x != "branch" or "branch" not in steps[:i]]   # one new branch per scenario
                 if rng.random() < 0.5:
                     steps.append("modify")
                 cases.append({"bucket": "isolation", "op": "isolation", "steps": steps})
@@ -197,7 +198,7 @@ class Layout(Suite):
                     why.append("commit in wa did not advance its HEAD")
                 if ("refs/heads/wa " + (a["head"] if "branch" not in c["steps"] else "")) not in ex["refs_from_main"] and "branch" not in c["steps"]:
                     why.append("branch wa not visible from main with wa's HEAD")
-                if "tag" in c["steps"] and "refs/tags/t1 " not in ex["refs_from_wb"]:
+                if "tag" in c["steps"] and "refs/tags/t" not in ex["refs_from_wb"]:
                     why.append("tag created in wa not visible from wb")
                 if ex.get("fsck_err") or ex.get("worktree_list_err") or ex.get("step_err"):
                     why.append("error: %s %s %s" % (ex.get("fsck_err"), ex.get("worktree_list_err"), ex.get("step_err")))
